@@ -51,6 +51,7 @@ def U(**kw):
     return kw
 
 
+PKT_STUBS = ["tr_recv_all", "tr_send_all", "lrtr_dbg", "pthread_setcancelstate"]
 PKT_LINK = ["rtrlib/lib/convert_byte_order.c", "rtrlib/lib/ipv4.c", "rtrlib/lib/ipv6.c", "rtrlib/lib/utils.c"]
 IP_SRCS = ["rtrlib/lib/ip.c", "rtrlib/lib/ipv4.c", "rtrlib/lib/ipv6.c", "rtrlib/lib/utils.c"]
 
@@ -88,7 +89,59 @@ SYNC_LOOP = dict(
                "(rtr_socket->version < __CPROVER_loop_entry(rtr_socket->version) ? !__CPROVER_loop_entry(rtr_socket->has_received_pdus) : 1) && "
                "(__CPROVER_loop_entry(rtr_socket->has_received_pdus) ? rtr_socket->has_received_pdus : 1)")
 
+FSM_INV_TEXT = ("(rtr_socket->version <= 1 && (!rtr_socket->request_session_id ? (g_f.have && rtr_socket->session_id == g_f.sess && rtr_socket->serial_number == g_f.serial) : 1) && "
+                "(rtr_socket->last_update == 0 ? (!g_f.has_data && rtr_socket->request_session_id) : 1) && "
+                "(rtr_socket->state == 1 ? !rtr_socket->request_session_id : 1) && (rtr_socket->state == 2 ? rtr_socket->request_session_id : 1) && rtr_socket->last_update <= g_f.now && "
+                "g_f.now > 0 && g_f.now < 1099511627776l && rtr_socket->last_update >= 0 && rtr_socket == &g_sock)")
+FSM_LOOP = dict(
+    function="rtr_fsm_start", fingerprint=r"while \(1\)", macro_headers=[],
+    symbols=["rtr_socket", "oldcancelstate"], globals=["g_f", "g_sock"],
+    assigns="oldcancelstate, rtr_socket->state, rtr_socket->has_received_pdus, rtr_socket->request_session_id, rtr_socket->serial_number, "
+            "rtr_socket->session_id, rtr_socket->last_update, rtr_socket->is_resetting, rtr_socket->version, rtr_socket->refresh_interval, "
+            "rtr_socket->expire_interval, rtr_socket->retry_interval, __CPROVER_object_whole(&g_f)",
+    invariants=FSM_INV_TEXT)
+
 UNITS = [
+    # ------------------------------------------------------------------ state machine (C05, C07, C13)
+    U(id="fsm", props=["C05", "C07", "C13"], file="units/fsm.c", entry="h_fsm", enforce=["rtr_fsm_start"],
+      loops=[FSM_LOOP], kind="unbounded", need_classes=["loop_invariant_base", "loop_invariant_step", "assertion"], native=None,
+      stubs=["rtr_sync", "rtr_send_serial_query", "rtr_send_reset_query", "rtr_wait_for_sync", "rtr_change_socket_state",
+             "tr_open", "tr_close", "pfx_table_src_remove", "spki_table_src_remove", "lrtr_get_monotonic_time", "sleep",
+             "pthread_setcancelstate", "pthread_exit", "lrtr_dbg"]),
+    # ------------------------------------------------------------------ send side (C05, C14)
+    U(id="change_state", props=["C05", "C15"], file="units/send.c", entry="h_change_state", defines=["H_ENTRY=h_change_state"],
+      enforce=["rtr_change_socket_state"], kind="complete", native=None, link=PKT_LINK, stubs=PKT_STUBS),
+    U(id="serial_query", props=["C05", "C14"], file="units/send.c", entry="h_serial_query", defines=["H_ENTRY=h_serial_query"],
+      enforce=["rtr_send_serial_query"], kind="complete", native=None, link=PKT_LINK, stubs=PKT_STUBS),
+    U(id="reset_query", props=["C05", "C14"], file="units/send.c", entry="h_reset_query", defines=["H_ENTRY=h_reset_query"],
+      enforce=["rtr_send_reset_query"], kind="complete", native=None, link=PKT_LINK, stubs=PKT_STUBS),
+    U(id="error_report_0_16", props=["C14"], file="units/send.c", entry="h_error_report",
+      defines=["H_ENTRY=h_error_report", "ENC=0", "TXT=16"], enforce=["rtr_send_error_pdu_from_host"], kind="complete",
+      native=None, link=PKT_LINK, stubs=PKT_STUBS),
+    U(id="error_report_8_48", props=["C14"], file="units/send.c", entry="h_error_report",
+      defines=["H_ENTRY=h_error_report", "ENC=8", "TXT=48"], enforce=["rtr_send_error_pdu_from_host"], kind="complete",
+      native=None, link=PKT_LINK, stubs=PKT_STUBS),
+    U(id="error_report_12_67", props=["C14"], file="units/send.c", entry="h_error_report",
+      defines=["H_ENTRY=h_error_report", "ENC=12", "TXT=67"], enforce=["rtr_send_error_pdu_from_host"], kind="complete",
+      native=None, link=PKT_LINK, stubs=PKT_STUBS),
+    U(id="error_report_20_0", props=["C14"], file="units/send.c", entry="h_error_report",
+      defines=["H_ENTRY=h_error_report", "ENC=20", "TXT=0"], enforce=["rtr_send_error_pdu_from_host"], kind="complete",
+      native=None, link=PKT_LINK, stubs=PKT_STUBS),
+    U(id="error_report_20_45", props=["C14"], file="units/send.c", entry="h_error_report",
+      defines=["H_ENTRY=h_error_report", "ENC=20", "TXT=45"], enforce=["rtr_send_error_pdu_from_host"], kind="complete",
+      native=None, link=PKT_LINK, stubs=PKT_STUBS),
+    U(id="error_report_24_67", props=["C14"], file="units/send.c", entry="h_error_report",
+      defines=["H_ENTRY=h_error_report", "ENC=24", "TXT=67"], enforce=["rtr_send_error_pdu_from_host"], kind="complete",
+      native=None, link=PKT_LINK, stubs=PKT_STUBS),
+    U(id="error_report_32_0", props=["C14"], file="units/send.c", entry="h_error_report",
+      defines=["H_ENTRY=h_error_report", "ENC=32", "TXT=0"], enforce=["rtr_send_error_pdu_from_host"], kind="complete",
+      native=None, link=PKT_LINK, stubs=PKT_STUBS),
+    U(id="error_report_123_0", props=["C14"], file="units/send.c", entry="h_error_report",
+      defines=["H_ENTRY=h_error_report", "ENC=123", "TXT=0"], enforce=["rtr_send_error_pdu_from_host"], kind="complete",
+      native=None, link=PKT_LINK, stubs=PKT_STUBS),
+    U(id="error_report_123_49", props=["C14"], file="units/send.c", entry="h_error_report",
+      defines=["H_ENTRY=h_error_report", "ENC=123", "TXT=49"], enforce=["rtr_send_error_pdu_from_host"], kind="complete",
+      native=None, link=PKT_LINK, stubs=PKT_STUBS),
     # ------------------------------------------------------------------ receive path (C04, C13, C14)
     U(id="receive_pdu", props=["C04", "C13", "C14"], file="units/receive.c", entry="h_receive_pdu",
       enforce=["rtr_receive_pdu"], kind="complete", native=None, timeout=1800, link=PKT_LINK, replace=["verif_fmt"],
